@@ -33,7 +33,7 @@ void h_reset_window(void) {
   g_k = nondet_u32(); __CPROVER_assume(g_k < RTL_WORDS); g_memk = M->memory_q[g_k];
   uint32_t cex_k = g_k;
   g_oracle_in = nondet_int(); __CPROVER_assume(g_oracle_in >= -1 && g_oracle_in <= 255);
-  tb_time = 0; tb_break = false; tb_gotFinish = false; trace = nondet_bool(); maxCycles = 0; verif_thrown = false;
+  tb_time = 0; tb_break = false; tb_gotFinish = false; tb_trace = nondet_bool(); tb_maxCycles = 0; verif_thrown = false;
   g_syscalls_entered = 0; g_entered_outside_start = false;
   tb_prologue();
   for (unsigned it = 0; it < RESET_END; it++) {
